@@ -343,6 +343,13 @@ func (g *sesGen) step() {
 		ss := pick()
 		if ss.transport == "websocket" || ss.transport == "webtransport" {
 			ss.closeCause = true
+			if codes := []int{0, 1000, 1001, 1008, 1011, 3000, 4000}; ss.transport == "websocket" && !g.rt {
+				// … or says goodbye with a close frame carrying some status code
+				if code := codes[r.rng.IntN(len(codes))]; code != 0 {
+					g.add(fmt.Sprintf("ses drop %d %d", ss.conn, code))
+					break
+				}
+			}
 			g.add(fmt.Sprintf("ses drop %d", ss.conn))
 		} else if ss.pollPending {
 			ss.closeCause = true
@@ -465,6 +472,11 @@ func monitorSession(r *Rec, g *sesGen, outs []string) {
 				}
 				if !docReasons[e.args[0]] {
 					r.Violate("C03", "C03/reason/"+e.args[0], "undocumented close reason "+e.args[0], replay)
+				}
+				if f[1] == "drop" && e.args[0] != "transport_close" {
+					// the peer went away (connection dropped, or closed with a close frame of whatever status code):
+					// the documented reason of that cause is "transport close"
+					r.Violate("C03", "C03/reason-of-cause/peer-closed/"+e.args[0], "the peer closed its connection ("+line+") and the session closed with reason "+e.args[0], replay)
 				}
 				if (f[1] == "close" || f[1] == "shutdown") && e.args[0] != "forced_close" && e.args[0] != "transport_close" {
 					r.Violate("C12", "C12/reason/"+e.args[0], "application close ended with reason "+e.args[0], replay)
